@@ -15,6 +15,10 @@ fn main() {
     let mut report = Report::default();
     match args.prop.as_str() {
         "C12" => c12::run(&args, &mut report),
+        "C12-world-child" => {
+            c12::world_child(&args);
+            return;
+        }
         "C12-child" => {
             c12::child(&args);
             return;
